@@ -3,7 +3,7 @@
 Model (JSON-serialisable)
     member := {"k": "func",  "n": name, "params": [[pname, ann|None, has_default]], "ret": ann|None, "doc": bool,
                             "ov": 0|2|3 (stubs side only), "impl": bool (stubs side: a plain definition follows the overloads)}
-            | {"k": "attr",  "n": name, "ann": ann|None, "val": bool, "doc": bool}
+            | {"k": "attr",  "n": name, "ann": ann|None, "val": bool, "doc": bool, "prop": bool (optional: spelled as @property)}
             | {"k": "class", "n": name, "doc": bool, "members": [member, ...], "base": name of a sibling class | None (optional)}
             | {"k": "alias", "n": name, "t": "ext" | "int" | "typing"}
     module := {"doc": bool, "members": [member, ...]}            member names are unique inside a container
@@ -48,6 +48,10 @@ def pairs(top: str = "p", internal_aliases: bool = True):
         if side == "S":
             m["ov"] = draw(st.sampled_from([0, 0, 0, 2, 3]))
             m["impl"] = draw(st.booleans()) if m["ov"] else True
+        else:
+            # a runtime function may declare its own @overload signatures (always followed by the implementation)
+            m["ov"] = draw(st.sampled_from([0, 0, 0, 0, 2]))
+            m["impl"] = True
         return m
 
     @st.composite
@@ -71,7 +75,12 @@ def pairs(top: str = "p", internal_aliases: bool = True):
         if k == "func":
             return draw(func(name, side))
         if k == "attr":
-            return draw(attr(name, side))
+            a = draw(attr(name, side))
+            if depth >= 1 and draw(st.integers(0, 2)) == 0:
+                # inside a class an attribute may be spelled as a property (`@property def x(self) -> T`): still an
+                # attribute for Griffe, annotated by the getter's return annotation, without value
+                a["prop"], a["val"] = True, False
+            return a
         if k == "alias":
             return draw(alias(name))
         if depth >= 2:
@@ -153,6 +162,7 @@ def pairs(top: str = "p", internal_aliases: bool = True):
                     w = {"k": "class", "n": n, "doc": draw(st.booleans()), "members": [draw(single(i, "R", 2, kinds=("func", "func", "attr", "alias"))) for i in inner]}
                 # how the runtime module gets the name: 0 = wildcard import from _impl; 2 / 3 = explicit re-export over
                 # two / three alias hops (module -> _api [-> _api2] -> _core, which defines it)
+                _strip_overloads(w)
                 w["hop"] = draw(st.sampled_from([0, 0, 2, 3]))
                 ws.append(w)
                 rel = draw(st.sampled_from(["same"] * 6 + ["diff", "alias", "none", "none"]))
@@ -173,6 +183,13 @@ def pairs(top: str = "p", internal_aliases: bool = True):
         return normalise(p)
 
     return pair()
+
+
+def _strip_overloads(m: dict) -> None:
+    if m["k"] == "func":
+        m["ov"] = 0
+    for sub in m.get("members", []):
+        _strip_overloads(sub)
 
 
 def normalise(pair: dict) -> dict:
@@ -254,9 +271,11 @@ def has_overloads(members) -> bool:
 
 
 # ----------------------------------------------------------------------------------------------- render
-def overload_signatures(m: dict) -> list:
-    """[[ [pname, ann], ...], ret] for each overload of a stub function model (derived deterministically)."""
-    return [[[[p[0], S_ANN[i % len(S_ANN)]] for p in m["params"]], S_ANN[i % len(S_ANN)]] for i in range(m.get("ov", 0))]
+def overload_signatures(m: dict, side: str = "S") -> list:
+    """[[ [pname, ann], ...], ret] for each overload of a function model (derived deterministically; runtime overloads
+    use the runtime annotation vocabulary, so they never equal the stubs')."""
+    anns = S_ANN if side == "S" else R_ANN
+    return [[[[p[0], anns[i % len(anns)]] for p in m["params"]], anns[i % len(anns)]] for i in range(m.get("ov", 0))]
 
 
 IMPL = "_impl"
@@ -296,7 +315,7 @@ def render_module(mod: dict, side: str, top: str, wildcard: bool | list = False)
         lines.append(f'"""{side}:module"""')
     if wildcard:
         lines += wildcard if isinstance(wildcard, list) else [f"from {top}.{IMPL} import *"]
-    if side == "S" and has_overloads(mod["members"]):
+    if has_overloads(mod["members"]):
         lines.append("from typing import overload")
     _render_members(mod["members"], side, top, "", "", lines)
     return "\n".join(lines) + "\n"
@@ -308,6 +327,14 @@ def _render_members(members, side, top, qual, ind, lines) -> None:
         if m["k"] == "alias":
             src = {"ext": EXT, "int": f"{top}.{OTHER}", "typing": "typing"}[m["t"]]
             lines.append(f"{ind}from {src} import {m['n']}")
+        elif m["k"] == "attr" and m.get("prop"):
+            lines.append(f"{ind}@property")
+            ret = f" -> {m['ann']}" if m["ann"] else ""
+            if m["doc"]:
+                lines.append(f"{ind}def {m['n']}(self){ret}:")
+                lines.append(f'{ind}    """{side}:{q}"""')
+            else:
+                lines.append(f"{ind}def {m['n']}(self){ret}: ...")
         elif m["k"] == "attr":
             rhs = "1" if side == "R" else "..."
             if m["ann"] and m["val"]:
@@ -320,7 +347,7 @@ def _render_members(members, side, top, qual, ind, lines) -> None:
                 lines.append(f'{ind}"""{side}:{q}"""')
         elif m["k"] == "func":
             dflt = "1" if side == "R" else "..."
-            for sig, ret in overload_signatures(m) if side == "S" else []:
+            for sig, ret in overload_signatures(m, side):
                 lines.append(f"{ind}@overload")
                 lines.append(f"{ind}def {m['n']}({', '.join(f'{p}: {a}' for p, a in sig)}) -> {ret}: ...")
             if side == "R" or m.get("impl", True):
@@ -364,7 +391,7 @@ def _own(m: dict, side: str, qual: str, runtime: bool | None) -> dict:
         return {"kind": "attribute", "ann": m["ann"], "value": ("1" if side == "R" else "...") if m["val"] else None, "doc": f"{side}:{q}" if m["doc"] else None, "runtime": runtime, "ov": None}
     if m["k"] == "func":
         dflt = "1" if side == "R" else "..."
-        ovs = overload_signatures(m) if side == "S" else []
+        ovs = overload_signatures(m, side)
         return {
             "kind": "function",
             "params": [[p, a, dflt if d else None] for p, a, d in m["params"]],
@@ -408,7 +435,7 @@ def _merge_container(r_members: list, s_members: list, qual: str) -> dict:
                 if not r["doc"] and s["doc"]:
                     rec["doc"] = f"S:{q}"
             if s.get("ov"):
-                rec["ov"] = overload_signatures(s)
+                rec["ov"] = overload_signatures(s, "S")
             out[r["n"]] = rec
         else:
             rec = {"kind": "class", "doc": f"R:{q}" if r["doc"] else (f"S:{q}" if s["doc"] else None), "runtime": True, "ov": "dict", "bases": [r["base"]] if r.get("base") else []}
@@ -442,6 +469,8 @@ def expected(pair: dict, wildcard: bool = False, top: str = "p") -> dict:
         if w["n"] in s_plain:
             rec["via"] = members[w["n"]]
         members[w["n"]] = rec
+    if has_overloads(r["members"]) and "overload" not in members:
+        members["overload"] = {"kind": "alias", "target": "typing.overload", "resolved": False, "runtime": True}
     if has_overloads(s["members"]) and "overload" not in members:
         members["overload"] = {"kind": "alias", "target": "typing.overload", "resolved": False, "runtime": False}
     return {"doc": "R:module" if r["doc"] else ("S:module" if s["doc"] else None), "members": members}
@@ -592,6 +621,10 @@ def labels(pair: dict) -> set[str]:
                 out.add(f"same-kind:{r['k']}" + (f":depth{depth}" if depth else ""))
                 if r["k"] == "class":
                     rec(r["members"], s["members"], depth + 1)
+                if r["k"] == "attr" and (r.get("prop") or s.get("prop")):
+                    out.add("property:" + ("both" if r.get("prop") and s.get("prop") else "runtime-only" if r.get("prop") else "stubs-only"))
+                if r["k"] == "func" and r.get("ov"):
+                    out.add("runtime-overloads:" + ("stubs-overloads-too" if s.get("ov") else "stubs-without"))
                 if r["k"] == "func":
                     if s.get("ov"):
                         out.add("overloads-for-runtime-function" + ("" if s.get("impl", True) else ":bare"))
